@@ -1,0 +1,51 @@
+//go:build verif
+// +build verif
+
+package vm
+
+// Read-only verification hooks (property C16, memory ranges): the memorySize / gasCost / execute
+// functions of the jump-table rows that NewInterpreter installs, called one at a time on a stack and a
+// memory chosen by the caller. Nothing here is compiled into the node; the file only exists under the
+// `verif` build tag and changes no behaviour.
+
+import "math/big"
+
+// verifStackFrom builds a stack whose Back(i) is a copy of words[i].
+func verifStackFrom(words []*big.Int) *Stack {
+	st := newstack()
+	for i := len(words) - 1; i >= 0; i-- {
+		st.push(new(big.Int).Set(words[i]))
+	}
+	return st
+}
+
+// VerifMemorySize is JumpTable[op].memorySize(stack); has = false when the row has no such function.
+func (evm *EVM) VerifMemorySize(op byte, words []*big.Int) (size *big.Int, has bool) {
+	o := evm.interpreter.cfg.JumpTable[op]
+	if o.memorySize == nil {
+		return nil, false
+	}
+	return new(big.Int).Set(o.memorySize(verifStackFrom(words))), true
+}
+
+// VerifGasCost is JumpTable[op].gasCost(gasTable, evm, contract, stack, mem, memorySize).
+func (evm *EVM) VerifGasCost(op byte, words []*big.Int, contract *Contract, mem *Memory, memorySize uint64) (uint64, error) {
+	o := evm.interpreter.cfg.JumpTable[op]
+	return o.gasCost(evm.interpreter.gasTable, evm, contract, verifStackFrom(words), mem, memorySize)
+}
+
+// VerifExecute is JumpTable[op].execute(&pc, evm, contract, mem, stack) with the interpreter's return-data
+// buffer and evm.callGasTemp set as given. It returns the body's result, the stack afterwards (Back order)
+// and the body's error.
+func (evm *EVM) VerifExecute(op byte, words []*big.Int, contract *Contract, mem *Memory, returnData []byte, callGas uint64) (ret []byte, after []*big.Int, err error) {
+	o := evm.interpreter.cfg.JumpTable[op]
+	st := verifStackFrom(words)
+	evm.interpreter.returnData = returnData
+	evm.callGasTemp = callGas
+	pc := uint64(0)
+	ret, err = o.execute(&pc, evm, contract, mem, st)
+	for i := len(st.data) - 1; i >= 0; i-- {
+		after = append(after, new(big.Int).Set(st.data[i]))
+	}
+	return ret, after, err
+}
